@@ -11,11 +11,14 @@ BASE = {
 
 SIMPLE_CHILDREN = {'ok': 0.86, 'exit_late': 0.06, 'backoff_then_ok': 0.04, 'ignore_stop': 0.04}
 
+# children that stop failing after a bounded number of spawns (C08: "once disturbances stop")
+EVENTUALLY_OK_CHILDREN = {'ok': 0.84, 'exit_late_then_ok': 0.08, 'backoff_then_ok': 0.04, 'ignore_stop': 0.04}
+
 PROFILES = {
     'C01': dict(BASE, max_faults=5, min_faults=1, ops='none', child_kinds=SIMPLE_CHILDREN,
                 fault_weights={'crash': 2, 'restart': 4, 'partition': 3},
                 supvisors_failure_strategies=['CONTINUE', 'CONTINUE', 'RESYNC'], n_groups=[1, 2], n_programs=[1, 2, 3]),
-    'C08': dict(BASE, max_faults=5, min_faults=1, ops='direct', max_ops=2, child_kinds=SIMPLE_CHILDREN,
+    'C08': dict(BASE, max_faults=5, min_faults=1, ops='direct', max_ops=2, child_kinds=EVENTUALLY_OK_CHILDREN,
                 fault_weights={'crash': 2, 'restart': 4, 'partition': 2, 'child_exit': 2}, p_heal=1.0, p_final_heal=1.0,
                 quiesce=240.0, supvisors_failure_strategies=['CONTINUE', 'CONTINUE', 'RESYNC'],
                 p_trigger=0.5, trigger_states=['ELECTION', 'DISTRIBUTION', 'CONCILIATION', 'OPERATION'],
